@@ -70,6 +70,20 @@ BIG = [0, 1, 2, 9, 10, 11, 99, 100, 101, 999, 1000, 65535, 65536, 99999, 100000,
        1000000007, -1, -2, -10, -2 ** 31, -2 ** 31 + 1]
 
 
+NUMS = ['1', '2', '9', '10', '11', '99', '100', '007', '010', '0', '4294967295', '4294967296', '20230917101500', '18446744073709551616',
+        '9223372036854775808', '-1', '1e3', '0x10']
+
+
+def gen_family_name(rng):
+    """names that a 'natural', numeric, case-insensitive or locale-aware order would arrange differently from the byte order"""
+    r = rng.random()
+    if r < 0.6:
+        return rng.choice(NUMS) + rng.choice(['_', '-', '.', '']) + rng.choice(['Vault', 'Router', 'Migration', 'a', '']) + '.sol'
+    if r < 0.8:
+        return 'v%s.%s.sol' % (rng.choice(NUMS[:9]), rng.choice(NUMS[:9]))
+    return rng.choice(['a.sol', 'A.sol', 'á.sol', 'Á.sol', 'ä.sol', 'b.sol', 'B.sol', 'ß.sol', 'ss.sol', 'İ.sol', 'i.sol', 'I.sol', 'ı.sol'])
+
+
 def gen_name(rng):
     r = rng.random()
     if r < 0.7:
@@ -100,7 +114,13 @@ def gen_vector(rng, maxfiles=6, allow_empty=False):
     lo = 0 if allow_empty else 1
     n = rng.randint(lo, maxfiles)
     v = []
+    family = rng.random() < 0.15
+    if family:
+        n = max(n, min(maxfiles, 4))
     for _ in range(n):
+        if family and rng.random() < 0.85:
+            v.append([gen_family_name(rng), gen_lines(rng)])
+            continue
         if v and rng.random() < 0.25:
             prev = rng.choice(v)           # the same file name twice (two directories)
             name = prev[0]
